@@ -142,5 +142,59 @@ Proof.
     try contradiction; subst o1; subst o2; reflexivity.
 Qed.
 
+(* ------------------------------------------------------------------------------------------ *)
+(** * The same table to the right of "~"
+
+    The right-hand side of "~" is parsed at the level of "+" ([Parser.tilde] calls [addition]): a pair is accepted
+    there iff NEITHER operator binds looser than "+" (no bare "|" and no comparison), the tree of the right-hand
+    side is then the same [pair_tree] (the scanner inserts "1 +" after the tilde), and every other pair is refused
+    with a parse error -- never parsed to something else. *)
+Definition tilde_pair (o1 o2 : kind * string) (y a b c : string) : res expr :=
+  if Nat.leb 2 (level (fst o1)) && Nat.leb 2 (level (fst o2)) then
+    match pair_tree o1 o2 a b c with Some t => Ok (Bin (V y) TILDE "~" t) | None => Err EParse end
+  else Err EParse.
+
+Theorem law_tilde_pairs_spaced : forall o1 o2, In o1 binops -> In o2 binops ->
+  forall s y a b c, Ident y -> Ident a -> Ident b -> Ident c ->
+  Renders s [idt y; mk TILDE "~"; idt a; mk (fst o1) (snd o1); idt b; mk (fst o2) (snd o2); idt c] ->
+  front_end s = tilde_pair o1 o2 y a b c.
+Proof.
+  intros o1 o2 H1 H2.
+  cbn [binops In] in H1, H2.
+  repeat match goal with H : _ \/ _ |- _ => destruct H as [H | H] end;
+    try contradiction; subst o1; subst o2; cbn [fst snd];
+    intros s y a b c Hy Ha Hb Hc R;
+    match type of R with Renders _ ?ls => law_general ls end.
+Qed.
+
+Theorem law_tilde_pairs : forall o1 o2, In o1 binops -> In o2 binops ->
+  forall y a b c, Ident y -> Ident a -> Ident b -> Ident c ->
+  front_end (y ++ "~" ++ a ++ snd o1 ++ b ++ snd o2 ++ c) = tilde_pair o1 o2 y a b c.
+Proof.
+  intros o1 o2 H1 H2 y a b c Hy Ha Hb Hc.
+  apply (law_tilde_pairs_spaced o1 o2 H1 H2 _ y a b c Hy Ha Hb Hc).
+  cbn [binops In] in H1, H2.
+  repeat match goal with H : _ \/ _ |- _ => destruct H as [H | H] end;
+    try contradiction; subst o1; subst o2; cbn [fst snd]; glue_goal.
+Qed.
+
+(** accepted iff both operators bind at least as tight as "+" *)
+Corollary law_tilde_pairs_accept_iff : forall o1 o2, In o1 binops -> In o2 binops ->
+  forall y a b c, Ident y -> Ident a -> Ident b -> Ident c ->
+  ((exists t, front_end (y ++ "~" ++ a ++ snd o1 ++ b ++ snd o2 ++ c) = Ok t) <->
+   (2 <= level (fst o1) /\ 2 <= level (fst o2))).
+Proof.
+  intros o1 o2 H1 H2 y a b c Hy Ha Hb Hc.
+  rewrite (law_tilde_pairs o1 o2 H1 H2 y a b c Hy Ha Hb Hc). unfold tilde_pair.
+  destruct (law_pairs o1 o2 H1 H2 a b c Ha Hb Hc) as (t & Ht & _). rewrite Ht.
+  destruct (Nat.leb_spec 2 (level (fst o1))) as [L1 | L1];
+  destruct (Nat.leb_spec 2 (level (fst o2))) as [L2 | L2]; cbn [andb];
+    split; try (intros [t' Hc']; discriminate Hc'); try (intros [? ?]; lia); try (intros _; eexists; reflexivity);
+    intros _; split; assumption.
+Qed.
+
+Print Assumptions law_tilde_pairs.
+Print Assumptions law_tilde_pairs_accept_iff.
+
 Print Assumptions law_pairs.
 Print Assumptions law_pairs_spaced.
